@@ -220,19 +220,29 @@ def insertionSort (l : List Nat) : List Nat :=
     | y :: ys => if x ≤ y then x :: y :: ys else y :: ins x ys
   l.foldl (fun acc x => ins x acc) []
 
+/-- The first assertions of `process_attestation`, on the data's epochs and slot:
+```python
+    assert data.target.epoch in (get_previous_epoch(state), get_current_epoch(state))
+    assert data.target.epoch == compute_epoch_at_slot(data.slot)
+    assert data.slot + MIN_ATTESTATION_INCLUSION_DELAY <= state.slot <= data.slot + SLOTS_PER_EPOCH
+    # [Modified in Deneb:EIP7045]  assert data.slot + MIN_ATTESTATION_INCLUSION_DELAY <= state.slot
+```
+(`uint64` sums that overflow raise in the pyspec: rejected.) -/
+def attestation_timing (cfg : Config) (s : State) (data : AttestationData) : SM Unit := do
+  require (data.target.epoch = get_previous_epoch cfg s || data.target.epoch = get_current_epoch cfg s) "attestation.target_epoch_not_prev_or_curr"
+  require (data.target.epoch = compute_epoch_at_slot cfg data.slot) "attestation.target_epoch_vs_slot"
+  let _ ← u64 (data.slot + cfg.MIN_ATTESTATION_INCLUSION_DELAY) "attestation.slot overflow"
+  require (data.slot + cfg.MIN_ATTESTATION_INCLUSION_DELAY ≤ s.slot) "attestation.too_early"
+  if s.fork ≥ .deneb then pure ()  -- [Modified in Deneb:EIP7045]
+  else
+    let _ ← u64 (data.slot + cfg.SLOTS_PER_EPOCH) "attestation.slot overflow"
+    require (s.slot ≤ data.slot + cfg.SLOTS_PER_EPOCH) "attestation.too_late"
+
 /-- `process_attestation` [phase0: pending attestations] [Modified in Altair: participation flags,
 proposer reward] [Modified in Deneb:EIP7045: no upper bound of the inclusion window] -/
 def process_attestation (cfg : Config) (s : State) (attestation : Attestation) : SM State := do
   let data := attestation.data
-  require (data.target.epoch = get_previous_epoch cfg s || data.target.epoch = get_current_epoch cfg s) "attestation.target_epoch_not_prev_or_curr"
-  require (data.target.epoch = compute_epoch_at_slot cfg data.slot) "attestation.target_epoch_vs_slot"
-  let _ ← u64 (data.slot + cfg.MIN_ATTESTATION_INCLUSION_DELAY) "attestation.slot overflow"
-  if s.fork ≥ .deneb then  -- [Modified in Deneb:EIP7045]
-    require (data.slot + cfg.MIN_ATTESTATION_INCLUSION_DELAY ≤ s.slot) "attestation.too_early"
-  else
-    require (data.slot + cfg.MIN_ATTESTATION_INCLUSION_DELAY ≤ s.slot) "attestation.too_early"
-    let _ ← u64 (data.slot + cfg.SLOTS_PER_EPOCH) "attestation.slot overflow"
-    require (s.slot ≤ data.slot + cfg.SLOTS_PER_EPOCH) "attestation.too_late"
+  attestation_timing cfg s data
   require (data.index < (← get_committee_count_per_slot cfg s data.target.epoch)) "attestation.committee_index"
   let committee ← get_beacon_committee cfg s data.slot data.index
   require (attestation.aggregation_bits.length = committee.length) "attestation.bits_length"
